@@ -23,3 +23,39 @@ func TestC02(t *testing.T) {
 		Report(rt, "C02", "parse", c, CheckC02(c, st))
 	})
 }
+
+// TestC01Pump attacks the "command lines of any length" clause: one repetition of the spec is iterated 20-150 times
+// (50-400 tokens); specs are group-free and the case is only claimed when the reference run stays within its
+// ambiguity bound, so the library's designed search cost stays small.
+func TestC01Pump(t *testing.T) {
+	st := StatsFor("C01")
+	cfg := GenCfg{Depth: 3, Env: true, DD: true, NoGroup: true}
+	rapid.Check(t, func(rt *rapid.T) {
+		p := GenProgram(rt, cfg)
+		if !p.AST.HasKind(KRep) {
+			p.AST = &Node{Kind: KRep, Kids: []*Node{p.AST}}
+			p.SpecStr = p.AST.Render(p.D)
+		}
+		count := rapid.IntRange(20, 150).Draw(rt, "pumpcount")
+		items, ok := SamplePumped(rt, p.D, p.AST, cfg, count)
+		if !ok {
+			st.Class("pump:skipped-no-repetition")
+			return
+		}
+		argv := Spell(rt, p.D, items)
+		if len(argv) > 400 {
+			argv = argv[:400]
+		}
+		if chance(rt, 1, 3, "mutate") {
+			argv = MutateArgv(rt, argv)
+		}
+		c := &ParseCase{Program: p, Argv: argv, Source: "pumped"}
+		Report(rt, "C01", "parse", c, CheckC01(c, st))
+		if len(argv) >= 50 {
+			st.Class("pump:argv>=50")
+		}
+		if len(argv) >= 200 {
+			st.Class("pump:argv>=200")
+		}
+	})
+}
